@@ -379,14 +379,19 @@ class Tensor:
             if node not in visited_nodes:
                 visited_nodes.add(node)
                 for child in node._children:
-                    if child.requires_grad and child._grad is None:
+                    # leaves accumulate across calls; non-leaf buffers always start from zero
+                    if child.requires_grad and (child._grad is None or not child.is_leaf):
                         child.zero_()
                     visit_node(child)
                 ordered_nodes.append(node)
         visit_node(self)
 
         # Go one tensor at a time and apply the chain rule to get its gradient
-        self.grad = grad
+        if not self.matches_shape(grad):
+            raise RuntimeError(f"Attempt to assign grad ({grad.shape}) to  a Tensor ({self.shape}) that has a different shape")
+        if self._grad is None or not self.is_leaf:
+            self.zero_()
+        self._grad += grad.data # own buffer: never alias (or take the dtype of) the caller's gradient
         for i, node in enumerate(reversed(ordered_nodes)):
             if node.grad_fn is not None:
                 #print(node.grad_fn)
